@@ -46,6 +46,11 @@ fn chains(log: &mut Log, rng: &mut Rng, m: &M, k: usize) {
     let ms = *rng.pick(&[1u32, 1, 2, 5]);
     let go = *rng.pick(&[0i32, -1, -5]);
     let ge = *rng.pick(&[0i32, -1, -2]);
+    gapped(log, m, k, ms, go, ge);
+}
+
+/// sdpkpp and the union path for one parameter set
+fn gapped(log: &mut Log, m: &M, k: usize, ms: u32, go: i32, ge: i32) {
     log.call("sdpkpp", json!({"m": pairs(m), "ms": ms, "go": go, "ge": ge}), || {
         let r = sparse::sdpkpp(m, k, ms, go, ge);
         json!({"path": r.path, "score": r.score})
@@ -312,6 +317,48 @@ pub fn drive(log: &mut Log) {
                 log.oblige("grid_exhaustive_small");
             }
         }
+    }
+
+    // (e) two matches on one diagonal at every distance 1..2k (not closed under the steps between them),
+    //     alone and among a few random matches, k in 1..6, all gap parameter sets: distance 1 is a
+    //     continuation, distances 2..k-1 are NOT a legal chain step, distances >= k are jumps
+    for k in 1..=6usize {
+        case += 1;
+        if !log.mine(case) {
+            continue;
+        }
+        let mut rng = Rng::new(seed, 65, case);
+        let empty: Vec<u8> = vec![];
+        if !log.begin("dg", json!({"x": bytes(&empty), "y": bytes(&empty), "k": k})) {
+            continue;
+        }
+        for d in 1..=(2 * k as u32) {
+            let (a, b) = (rng.below(4) as u32, rng.below(4) as u32);
+            let pair: M = vec![(a, b), (a + d, b + d)];
+            let mut three: M = vec![(a, b), (a + d, b + d), (a + 2 * d, b + 2 * d)];
+            let mut mixed: M = pair.clone();
+            for _ in 0..rng.range(1, 4) {
+                mixed.push((rng.below(3 * k as u64 + 6) as u32, rng.below(3 * k as u64 + 6) as u32));
+            }
+            mixed.sort_unstable();
+            mixed.dedup();
+            three.dedup();
+            for (ms, go, ge) in [(1u32, 0i32, 0i32), (1, -1, -1), (3, -5, -2)] {
+                gapped(log, &pair, k, ms, go, ge);
+                gapped(log, &mixed, k, ms, go, ge);
+            }
+            gapped(log, &three, k, 1, -1, -1);
+            let mut path: Vec<usize> = vec![];
+            log.call("lcskpp", json!({"m": pairs(&mixed)}), || {
+                let r = sparse::lcskpp(&mixed, k);
+                path = r.path.clone();
+                json!({"path": r.path, "score": r.score})
+            });
+            if d >= 2 && (d as usize) < k {
+                log.oblige("same_diagonal_pair_closer_than_k");
+            }
+        }
+        log.oblige("same_diagonal_pairs_every_distance");
     }
 
     // (c) arbitrary strictly sorted pair lists (not k-mer matches of anything), M <= 40, k in 1..5
